@@ -8,8 +8,47 @@ use num_traits::Float;
 use std::fmt::Debug;
 use std::ops::*;
 
+/// A scalar domain at which cgmath's `BaseNum`-generic code is instantiated: the three
+/// float-like tiers and the ten integer primitives (tier I).
+pub trait Dom:
+    Copy
+    + Debug
+    + PartialOrd
+    + num_traits::Num
+    + num_traits::NumCast
+    + AddAssign
+    + SubAssign
+    + MulAssign
+    + DivAssign
+    + RemAssign
+    + Send
+    + Sync
+    + 'static
+{
+    type M: Field;
+    const NAME: &'static str;
+    const EXACT: bool;
+    const SIGNED: bool;
+    const INTEGER: bool;
+    /// the value n/d if this domain represents it (floats: nearest; integers: only exact)
+    fn from_r(r: (i64, i64)) -> Option<Self>;
+    /// exact embedding of an implementation value into the model field
+    fn lift(self) -> Self::M;
+    fn key(self) -> (i128, i128);
+    /// conformance: does the implementation value agree with the model value?
+    /// `slack` multiplies the tolerance in float tiers (condition factor of a law; 1 for
+    /// lock-step formulas) and is ignored in exact domains.
+    fn close(self, m: Self::M, slack: f64) -> bool;
+    fn f(self) -> f64;
+    /// can this domain hold the model value (integers: in range; others: always)?
+    fn representable(_m: Self::M) -> bool {
+        true
+    }
+}
+
 pub trait Tier:
-    Float
+    Dom
+    + Float
     + approx::AbsDiffEq<Epsilon = Self>
     + approx::RelativeEq<Epsilon = Self>
     + approx::UlpsEq<Epsilon = Self>
@@ -23,9 +62,6 @@ pub trait Tier:
     + Sync
     + 'static
 {
-    type M: Field;
-    const NAME: &'static str;
-    const EXACT: bool;
     /// unit roundoff (0 for the exact tier)
     const U: f64;
     /// nearest representable value of n/d
@@ -33,16 +69,8 @@ pub trait Tier:
     fn int(n: i64) -> Self {
         Self::q(n, 1)
     }
-    /// exact embedding of an implementation value into the model field
-    fn lift(self) -> Self::M;
     /// implementation value nearest to a model value
     fn lower(m: Self::M) -> Self;
-    fn key(self) -> (i128, i128);
-    /// conformance: does the implementation value agree with the model value?
-    /// `slack` multiplies the tolerance in float tiers (condition factor of a law; 1 for
-    /// lock-step formulas) and is ignored in the exact tier.
-    fn close(self, m: Self::M, slack: f64) -> bool;
-    fn f(self) -> f64;
     fn show(self) -> String {
         format!("{:?}", self)
     }
@@ -52,19 +80,17 @@ pub trait Tier:
 
 pub const K_TOL: f64 = 256.0;
 
-impl Tier for Ex {
+impl Dom for Ex {
     type M = Ex;
     const NAME: &'static str = "X";
     const EXACT: bool = true;
-    const U: f64 = 0.0;
-    fn q(n: i64, d: i64) -> Ex {
-        Ex::q(n, d)
+    const SIGNED: bool = true;
+    const INTEGER: bool = false;
+    fn from_r(r: (i64, i64)) -> Option<Ex> {
+        Some(Ex::q(r.0, r.1))
     }
     fn lift(self) -> Ex {
         self
-    }
-    fn lower(m: Ex) -> Ex {
-        m
     }
     fn key(self) -> (i128, i128) {
         (self.num(), self.den())
@@ -74,6 +100,15 @@ impl Tier for Ex {
     }
     fn f(self) -> f64 {
         self.approx()
+    }
+}
+impl Tier for Ex {
+    const U: f64 = 0.0;
+    fn q(n: i64, d: i64) -> Ex {
+        Ex::q(n, d)
+    }
+    fn lower(m: Ex) -> Ex {
+        m
     }
     fn tol(_: Ex, _: f64) -> f64 {
         0.0
@@ -93,68 +128,125 @@ fn tol_f(m: Sh, u: f64, tiny: f64, slack: f64) -> f64 {
     K_TOL * u * (m.e + m.v.abs()) * slack.max(1.0) + K_TOL * tiny
 }
 
-impl Tier for f64 {
+impl Dom for f64 {
     type M = Sh;
     const NAME: &'static str = "D";
     const EXACT: bool = false;
-    const U: f64 = 1.1102230246251565e-16; // 2^-53
-    fn q(n: i64, d: i64) -> f64 {
-        n as f64 / d as f64
+    const SIGNED: bool = true;
+    const INTEGER: bool = false;
+    fn from_r(r: (i64, i64)) -> Option<f64> {
+        Some(r.0 as f64 / r.1 as f64)
     }
     fn lift(self) -> Sh {
         Sh::exact(self)
-    }
-    fn lower(m: Sh) -> f64 {
-        m.v
     }
     fn key(self) -> (i128, i128) {
         (self.to_bits() as i128, 0)
     }
     fn close(self, m: Sh, slack: f64) -> bool {
-        close_f(self, m, Self::U, 5e-324, slack)
+        close_f(self, m, <f64 as Tier>::U, 5e-324, slack)
     }
     fn f(self) -> f64 {
         self
+    }
+}
+impl Tier for f64 {
+    const U: f64 = 1.1102230246251565e-16; // 2^-53
+    fn q(n: i64, d: i64) -> f64 {
+        n as f64 / d as f64
+    }
+    fn lower(m: Sh) -> f64 {
+        m.v
     }
     fn tol(m: Sh, slack: f64) -> f64 {
         tol_f(m, Self::U, 5e-324, slack)
     }
 }
 
-impl Tier for f32 {
+impl Dom for f32 {
     type M = Sh;
     const NAME: &'static str = "F";
     const EXACT: bool = false;
-    const U: f64 = 5.960464477539063e-08; // 2^-24
-    fn q(n: i64, d: i64) -> f32 {
-        (n as f64 / d as f64) as f32
+    const SIGNED: bool = true;
+    const INTEGER: bool = false;
+    fn from_r(r: (i64, i64)) -> Option<f32> {
+        Some((r.0 as f64 / r.1 as f64) as f32)
     }
     fn lift(self) -> Sh {
         Sh::exact(self as f64)
-    }
-    fn lower(m: Sh) -> f32 {
-        m.v as f32
     }
     fn key(self) -> (i128, i128) {
         (self.to_bits() as i128, 1)
     }
     fn close(self, m: Sh, slack: f64) -> bool {
-        close_f(self as f64, m, Self::U, 1.4e-45, slack)
+        close_f(self as f64, m, <f32 as Tier>::U, 1.4e-45, slack)
     }
     fn f(self) -> f64 {
         self as f64
+    }
+}
+impl Tier for f32 {
+    const U: f64 = 5.960464477539063e-08; // 2^-24
+    fn q(n: i64, d: i64) -> f32 {
+        (n as f64 / d as f64) as f32
+    }
+    fn lower(m: Sh) -> f32 {
+        m.v as f32
     }
     fn tol(m: Sh, slack: f64) -> f64 {
         tol_f(m, Self::U, 1.4e-45, slack)
     }
 }
 
+macro_rules! int_dom {
+    ($t:ty, $name:expr, $signed:expr) => {
+        impl Dom for $t {
+            type M = Ex;
+            const NAME: &'static str = $name;
+            const EXACT: bool = true;
+            const SIGNED: bool = $signed;
+            const INTEGER: bool = true;
+            fn from_r(r: (i64, i64)) -> Option<$t> {
+                if r.1 != 1 {
+                    return None;
+                }
+                <$t>::try_from(r.0).ok()
+            }
+            fn lift(self) -> Ex {
+                Ex::new(self as i128, 1)
+            }
+            fn key(self) -> (i128, i128) {
+                (self as i128, 1)
+            }
+            fn close(self, m: Ex, _slack: f64) -> bool {
+                Ex::new(self as i128, 1) == m
+            }
+            fn f(self) -> f64 {
+                self as f64
+            }
+            fn representable(m: Ex) -> bool {
+                m.is_integer() && <$t>::try_from(m.num()).is_ok()
+            }
+        }
+    };
+}
+int_dom!(i8, "i8", true);
+int_dom!(i16, "i16", true);
+int_dom!(i32, "i32", true);
+int_dom!(i64, "i64", true);
+int_dom!(isize, "isize", true);
+int_dom!(u8, "u8", false);
+int_dom!(u16, "u16", false);
+int_dom!(u32, "u32", false);
+int_dom!(u64, "u64", false);
+int_dom!(usize, "usize", false);
+
 // ------------------------------------------------------------------ comparison helpers
 
-pub fn lift_v<T: Tier, const N: usize>(v: [T; N]) -> [T::M; N] {
+pub fn lift_v<T: Dom, const N: usize>(v: [T; N]) -> [T::M; N] {
     std::array::from_fn(|i| v[i].lift())
 }
-pub fn lift_m<T: Tier, const N: usize>(m: [[T; N]; N]) -> [[T::M; N]; N] {
+pub fn lift_m<T: Dom, const N: usize>(m: [[T; N]; N]) -> [[T::M; N]; N] {
     std::array::from_fn(|c| lift_v(m[c]))
 }
 pub fn lower_v<T: Tier, const N: usize>(v: [T::M; N]) -> [T; N] {
@@ -165,7 +257,7 @@ pub fn lower_m<T: Tier, const N: usize>(m: [[T::M; N]; N]) -> [[T; N]; N] {
 }
 
 /// lock-step comparison of a slice of implementation values with model values
-pub fn eq_slice<T: Tier>(ctx: &mut Ctx, key: &str, got: &[T], exp: &[T::M], slack: f64) -> bool {
+pub fn eq_slice<T: Dom>(ctx: &mut Ctx, key: &str, got: &[T], exp: &[T::M], slack: f64) -> bool {
     ctx.t();
     let mut ok = got.len() == exp.len();
     for g in got {
@@ -184,19 +276,19 @@ pub fn eq_slice<T: Tier>(ctx: &mut Ctx, key: &str, got: &[T], exp: &[T::M], slac
     }
     ok
 }
-pub fn eq_s<T: Tier>(ctx: &mut Ctx, key: &str, got: T, exp: T::M) -> bool {
+pub fn eq_s<T: Dom>(ctx: &mut Ctx, key: &str, got: T, exp: T::M) -> bool {
     eq_slice::<T>(ctx, key, &[got], &[exp], 1.0)
 }
-pub fn eq_v<T: Tier, const N: usize>(ctx: &mut Ctx, key: &str, got: [T; N], exp: [T::M; N]) -> bool {
+pub fn eq_v<T: Dom, const N: usize>(ctx: &mut Ctx, key: &str, got: [T; N], exp: [T::M; N]) -> bool {
     eq_slice::<T>(ctx, key, &got, &exp, 1.0)
 }
-pub fn eq_vc<T: Tier, const N: usize>(ctx: &mut Ctx, key: &str, got: [T; N], exp: [T::M; N], slack: f64) -> bool {
+pub fn eq_vc<T: Dom, const N: usize>(ctx: &mut Ctx, key: &str, got: [T; N], exp: [T::M; N], slack: f64) -> bool {
     eq_slice::<T>(ctx, key, &got, &exp, slack)
 }
-pub fn eq_m<T: Tier, const N: usize>(ctx: &mut Ctx, key: &str, got: [[T; N]; N], exp: [[T::M; N]; N]) -> bool {
+pub fn eq_m<T: Dom, const N: usize>(ctx: &mut Ctx, key: &str, got: [[T; N]; N], exp: [[T::M; N]; N]) -> bool {
     eq_mc::<T, N>(ctx, key, got, exp, 1.0)
 }
-pub fn eq_mc<T: Tier, const N: usize>(
+pub fn eq_mc<T: Dom, const N: usize>(
     ctx: &mut Ctx,
     key: &str,
     got: [[T; N]; N],
@@ -208,7 +300,7 @@ pub fn eq_mc<T: Tier, const N: usize>(
     eq_slice::<T>(ctx, key, &g, &e, slack)
 }
 /// two implementation results that must be *identical* (same bits / same rational)
-pub fn same_slice<T: Tier>(ctx: &mut Ctx, key: &str, a: &[T], b: &[T]) -> bool {
+pub fn same_slice<T: Dom>(ctx: &mut Ctx, key: &str, a: &[T], b: &[T]) -> bool {
     ctx.t();
     let ok = a.len() == b.len() && a.iter().zip(b).all(|(x, y)| x.key() == y.key() || x == y);
     if !ok {
